@@ -4,6 +4,9 @@ from .. import common as C
 from .. import gen_prog as GP
 
 
+PTRS, INTS = {}, {}
+
+
 def graph_module(rng):
     n = rng.randint(2, 7)
     kinds = [rng.choice("cs") for _ in range(n)]       # c = constant (usize), s = struct
@@ -31,10 +34,10 @@ def graph_module(rng):
             for m in range(rng.randint(0, 3)):
                 j = pick()
                 k = rng.random()
-                if j is None or k < 0.2: ms.append("\tm%d: i32,\n" % m); continue
+                if j is None or k < 0.2: ms.append("\tm%d: i32,\n" % m); INTS.setdefault(id(decls), []).append((i, m)); continue
                 if kinds[j] == "s":
                     if k < 0.45: ms.append("\tm%d: %s,\n" % (m, names[j])); es.append((names[i], names[j], "m"))
-                    elif k < 0.6: ms.append("\tm%d: &%s,\n" % (m, names[j]))
+                    elif k < 0.6: ms.append("\tm%d: &%s,\n" % (m, names[j])); PTRS.setdefault(id(decls), []).append((i, m, j))
                     else:
                         cs = [x for x in range(n) if kinds[x] == "c" and (x < i or cyclic)]
                         if cs:
@@ -52,11 +55,21 @@ def graph_module(rng):
             edges[i] = es
     order = list(range(n))
     rng.shuffle(order)
+    # uses of the pointer members: reading and writing a scalar member of the pointee THROUGH the pointer member
+    # needs the pointee's structure to be known when the holder is typed, wherever it is declared
+    users = ""
+    ints = {}
+    for (i, m) in INTS.pop(id(decls), []): ints.setdefault(i, []).append(m)
+    for (i, m, j) in PTRS.pop(id(decls), []):
+        if j in ints and kinds[j] == "s":
+            q = ints[j][0]
+            users += "fn rd_%d_%d(v: &%s) -> i32\n{\n\treturn: v.m%d.m%d\n}\nfn wr_%d_%d(v: &%s)\n{\n\tv.m%d.m%d = 1;\n}\n" % (i, m, names[i], m, q, i, m, names[i], m, q)
+    decls["users"] = users
     return names, kinds, decls, edges, order
 
 
 def render(names, kinds, decls, edges, order):
-    src = "".join(decls[i] + "\n" for i in order) + "fn main() -> u8\n{\n\treturn: 0\n}\n"
+    src = "".join(decls[i] + "\n" for i in order) + (decls.get("users", "") if not has_cycle(names, edges) else "") + "fn main() -> u8\n{\n\treturn: 0\n}\n"
     cs = "(" + " ".join("(%s %s)" % (names[i], kinds[i]) for i in order) + ")"
     es = "(" + " ".join("(%s %s %s)" % e for i in order for e in edges[i]) + ")"
     return src, "(%s %s)" % (cs, es)
